@@ -1,6 +1,162 @@
-import DtnVerif.Model.TcpclEp
+/-
+  C09 — TCPCL termination is graceful, complete and always finishes.
+  Safety half proved here; the liveness half (both endpoints closed within a bounded number of steps
+  at quiescence) is not yet a theorem and is decided by the implementation-side monitor on every run.
+-/
+import DtnVerif.Lemmas.TcpclSys
 namespace DtnVerif
 namespace Tcpcl
-theorem C09_placeholder : True := trivial
+
+theorem C09_facts :
+    Facts.enum_tcpcl_SessionTerm_Flag_REPLY = 1
+    ∧ (Facts.binds.filter (fun b => b.2.1 == "SessionTerm")).map (fun b => b.2.2.2) = [(tSessTerm : Int)] := by
+  decide
+
+def isTerm : Msg → Bool
+  | .sessTerm .. => true
+  | _ => false
+
+private theorem legalRun_term_count (s s' : LState) (ms : List Msg) (h : legalRun s ms = some s') :
+    (ms.filter isTerm).length + (if s.termSeen then 1 else 0) ≤ 1 := by
+  induction ms generalizing s with
+  | nil => simp; split <;> omega
+  | cons m ms ih =>
+    simp only [legalRun] at h
+    cases hs : legalStep s m with
+    | none => rw [hs] at h; simp at h
+    | some s1 =>
+      rw [hs] at h
+      have ih' := ih s1 h
+      cases m with
+      | sessTerm f r =>
+        simp only [legalStep] at hs
+        split at hs
+        · rename_i hc
+          simp at hc
+          injection hs with hs; subst hs
+          simp only [List.filter_cons, isTerm, if_true, List.length_cons, hc.2]
+          simp at ih'
+          simp; omega
+        · simp at hs
+      | contact f =>
+        simp only [legalStep] at hs
+        split at hs
+        · injection hs with hs; subst hs; simpa [List.filter_cons, isTerm] using ih'
+        · simp at hs
+      | sessInit a b c d x =>
+        simp only [legalStep] at hs
+        split at hs
+        · injection hs with hs; subst hs; simpa [List.filter_cons, isTerm] using ih'
+        · simp at hs
+      | keepalive | msgReject _ _ | xferAck _ _ _ | xferRefuse _ _ =>
+        simp only [legalStep] at hs
+        split at hs
+        · injection hs with hs; subst hs; simpa [List.filter_cons, isTerm] using ih'
+        · simp at hs
+      | xferSegment fl tid ext data =>
+        have hts : s1.termSeen = s.termSeen := by
+          simp only [legalStep] at hs
+          repeat' split at hs
+          all_goals (first | (simp at hs; done) | (injection hs with hs; subst hs; rfl))
+        rw [hts] at ih'
+        simpa [List.filter_cons, isTerm] using ih'
+
+/-- **Exactly-at-most-one SESS_TERM per side, and no new transfer after it**, for every schedule of the
+    two-endpoint system (either or both sides requesting termination at any moment): both facts are part
+    of sequence legality (`Legal`), so they follow from C04. -/
+theorem C09_one_term_each (cfgA cfgB : Cfg) (sch : List SysEv)
+    (a1 : 0 < cfgA.segInit) (a2 : cfgA.privExt = false) (a3 : 0 < cfgA.segMru)
+    (b1 : 0 < cfgB.segInit) (b2 : cfgB.privExt = false) (b3 : 0 < cfgB.segMru)
+    (hwf : ∀ pre, pre <+: sch → SysWF (runSys (initSys cfgA cfgB) pre))
+    (hs : ∀ ev ∈ sch, ev.sendOK) :
+    ((runSys (initSys cfgA cfgB) sch).a.emitted.filter isTerm).length ≤ 1
+    ∧ ((runSys (initSys cfgA cfgB) sch).b.emitted.filter isTerm).length ≤ 1 := by
+  have hi := sysInv_run sch _ (sysInv_init cfgA cfgB a1 a2 a3 b1 b2 b3) hwf hs
+  obtain ⟨La, ha⟩ := Option.isSome_iff_exists.mp (emitted_legal hi.ia)
+  obtain ⟨Lb, hb⟩ := Option.isSome_iff_exists.mp (emitted_legal hi.ib)
+  have := legalRun_term_count {} La _ ha
+  have := legalRun_term_count {} Lb _ hb
+  simp at *
+  omega
+
+/-- The responder's SESS_TERM is marked as reply and echoes the reason; a locally requested one is not. -/
+theorem C09_reply_flag (e : Ep) (m : Msg) (reason : Nat) (hs : e.inSess = true) (ht : e.inTerm = false) :
+    (onSessTerm e m reason).1.emitted = e.emitted ++ [.sessTerm 1 reason]
+    ∧ (sendSessTerm e reason false).1.emitted = e.emitted ++ [.sessTerm 0 reason] := by
+  constructor
+  · unfold onSessTerm
+    simp only [hs, ht, Bool.not_true, Bool.false_eq_true, if_false, Bool.not_false, if_true]
+    have h1 : (sendSessTerm e reason true).1.emitted = e.emitted ++ [.sessTerm 1 reason] := by
+      unfold sendSessTerm
+      simp only [hs, ht, Bool.not_true, Bool.false_eq_true, if_false]
+      simp only [flushPendStart, sendMessage, kaReset, idleReset, setState]
+      split <;> simp
+    have h2 : ∀ e1 : Ep, (checkSessTerm (flushPendStart { e1 with gotTerm := true }).1).1.emitted = e1.emitted := by
+      intro e1
+      have := congrArg PumpView.emitted (pv_checkSessTerm (flushPendStart { e1 with gotTerm := true }).1)
+      simp only [Ep.pumpView] at this
+      rw [this]; rfl
+    rw [h2, h1]
+  · unfold sendSessTerm
+    simp only [hs, ht, Bool.not_true, Bool.false_eq_true, if_false]
+    simp only [flushPendStart, sendMessage, kaReset, idleReset, setState]
+    split <;> simp
+
+/-- when both sides have requested termination, a received SESS_TERM is *not* answered by a second one -/
+theorem C09_no_second_term (e : Ep) (m : Msg) (reason : Nat) (hs : e.inSess = true) (ht : e.inTerm = true) :
+    (onSessTerm e m reason).1.emitted = e.emitted := by
+  unfold onSessTerm
+  split
+  · rename_i h; simp [hs] at h
+  · simp only []
+    have hif : (if (!e.inTerm) = true then sendSessTerm e reason true else (e, [])) = (e, []) := by simp [ht]
+    rw [hif]
+    have := congrArg PumpView.emitted (pv_checkSessTerm (flushPendStart { e with gotTerm := true }).1)
+    simp only [Ep.pumpView] at this
+    rw [this]; rfl
+
+/-- **Bundles queued but not started are reported, not silently lost**: whenever SESS_TERM is sent
+    (requested locally, as a reply, or by the idle timer) or the connection closes, every not-yet-started
+    transfer gets exactly one `send_bundle_finished` with a non-success result and leaves the send queue. -/
+theorem C09_unstarted_reported (e : Ep) :
+    (flushPendStart e).1.txPendStart = []
+    ∧ (flushPendStart e).2 = e.txPendStart.map (fun it =>
+        Out.sig "send_bundle_finished" [.str (natStr it.tid), .nat 0, .str "session terminating"])
+    ∧ (∀ it ∈ e.txPendStart, (flushPendStart e).1.txMap.contains it.tid = false) := by
+  refine ⟨rfl, rfl, ?_⟩
+  intro it hit
+  simp only [flushPendStart, List.contains_eq_mem, List.mem_filter, decide_eq_false_iff_not, not_and,
+    Bool.not_eq_true', Bool.not_eq_false, List.any_eq_true]
+  intro _
+  exact ⟨it, hit, by simp⟩
+
+theorem C09_term_flushes (e : Ep) (r : Nat) (b : Bool) (hs : e.inSess = true) (ht : e.inTerm = false) :
+    (sendSessTerm e r b).1.txPendStart = [] ∧ (sendSessTerm e r b).1.inTerm = true := by
+  unfold sendSessTerm
+  simp only [hs, ht, Bool.not_true, Bool.false_eq_true, if_false]
+  simp only [flushPendStart, sendMessage, kaReset, idleReset, setState]
+  split <;> simp
+
+/-- **No session is left half-open**: a user close or the peer's disconnect closes the endpoint at any
+    point of any execution and cancels its timers … -/
+theorem C09_no_half_open (e : Ep) (hc : e.closed = false) :
+    (step e .close).1.closed = true ∧ (step e .rxEof).1.closed = true
+    ∧ (step e .close).1.kaDeadline = none ∧ (step e .close).1.idleDeadline = none
+    ∧ (step e .rxEof).1.kaDeadline = none ∧ (step e .rxEof).1.idleDeadline = none := by
+  have hd : (doClose e).1.kaDeadline = none ∧ (doClose e).1.idleDeadline = none := by
+    unfold doClose; simp [hc]
+  have h1 : (step e .close).1 = (doClose e).1 := by unfold step; simp [hc]
+  have h2 : (step e .rxEof).1 = (doClose e).1 := by unfold step; simp [hc]
+  rw [h1, h2]
+  exact ⟨closed_doClose e, closed_doClose e, hd.1, hd.2, hd.1, hd.2⟩
+
+/-- … and a closed endpoint stays closed and never emits again, whatever happens. -/
+theorem C09_closed_is_final (e : Ep) (ev : Ev) (hc : e.closed = true) :
+    (step e ev).1.closed = true ∧ (step e ev).1.emitted = e.emitted := by
+  refine ⟨closed_step_mono e ev hc, ?_⟩
+  unfold step
+  cases ev <;> simp only [hc, if_true] <;> (try rfl)
+  · rename_i t; unfold popRx; split <;> rfl
+
 end Tcpcl
 end DtnVerif
